@@ -719,3 +719,39 @@ V("c05a-helper-extracted-guard-lost", "C05", {"rule": "C05a", "contains": "_samp
    "    elif state.is_lossy:\n        samples = _sample_lossy(state, common_kwargs)\n"),
   (PSTEPS, "def _create_branches_after_marginal_particle_number_measurement(",
    "def _sample_lossy(state: PassiveState, common_kwargs: dict):\n    return generate_lossy_samples(\n        **common_kwargs,\n        calculate_permanent_laplace=state._connector.permanent_laplace,\n    )\n\n\ndef _create_branches_after_marginal_particle_number_measurement("))
+
+# ------------------------------------------------------------------------------------------- C17
+FFSTEPS = "piquasso/fermionic/fock/simulation_steps.py"
+FGSTEPS = "piquasso/fermionic/gaussian/simulation_steps.py"
+_CONSEC = "    if state._config.validate and not are_modes_consecutive(modes):\n        raise InvalidParameter(f\"Specified modes must be consecutive: modes={modes}\")\n\n"
+V("c17a-isingxx-guard-removed", "C17", {"rule": "C17a", "contains": "ising_XX"},
+  (FFSTEPS, "    modes = instruction.modes\n\n" + _CONSEC + "    d = state._d\n    cutoff = state._config.cutoff\n\n    cos_phi", "    modes = instruction.modes\n\n    d = state._d\n    cutoff = state._config.cutoff\n\n    cos_phi"))
+V("c17a-squeezing2-guard-removed", "C17", {"rule": "C17a", "contains": "squeezing2"},
+  (FFSTEPS, "    fallback_np = connector.fallback_np\n\n" + _CONSEC + "    r = instruction.params[\"r\"]", "    fallback_np = connector.fallback_np\n\n    r = instruction.params[\"r\"]"))
+V("c17a-guard-after-write", "C17", {"rule": "C17a", "contains": "passive_linear"},
+  (FFSTEPS, "    modes = instruction.modes\n\n" + _CONSEC + "    unitary = instruction._get_passive_block(connector, config)\n", "    modes = instruction.modes\n\n    unitary = instruction._get_passive_block(connector, config)\n"),
+  (FFSTEPS, "        config.cutoff,\n    )\n\n    return [Branch(state=state)]\n\n\ndef squeezing2(", "        config.cutoff,\n    )\n\n" + _CONSEC + "    return [Branch(state=state)]\n\n\ndef squeezing2("))
+V("c17a-controlled-phase-not-diagonal", "C17", {"rule": "C17a", "contains": "controlled_phase"},
+  (FFSTEPS, "        state._state_vector, indices, rotation * state._state_vector[indices]\n", "        state._state_vector, indices, rotation * state._state_vector[indices[::-1]]\n"))
+V("c17a-nested-validate-form", "C17", "silent",
+  (FFSTEPS, "    fallback_np = connector.fallback_np\n\n" + _CONSEC + "    r = instruction.params[\"r\"]",
+   "    fallback_np = connector.fallback_np\n\n    if state._config.validate:\n        if not are_modes_consecutive(modes):\n            raise InvalidParameter(f\"Specified modes must be consecutive: modes={modes}\")\n\n    r = instruction.params[\"r\"]"))
+V("c17b-d-update-no-transpose", "C17", {"rule": "C17b", "contains": "_D"},
+  (FGSTEPS, "state._D[select_columns] @ unitary.T\n", "state._D[select_columns] @ unitary\n"))
+V("c17b-e-update-not-conjugated", "C17", {"rule": "C17b", "contains": "_E"},
+  (FGSTEPS, "state._E[select_columns] @ unitary.T.conj()\n", "state._E[select_columns] @ unitary.T\n"))
+V("c17b-rows-columns-swapped", "C17", {"rule": "C17b", "contains": "selection"},
+  (FGSTEPS, "        state._E, select_rows, unitary.conj() @ state._E[select_rows]\n", "        state._E, select_columns, unitary.conj() @ state._E[select_rows]\n"))
+V("c17b-np-conj-form", "C17", "silent",
+  (FGSTEPS, "        state._E, select_rows, unitary.conj() @ state._E[select_rows]\n", "        state._E, select_rows, connector.np.conj(unitary) @ state._E[select_rows]\n"))
+V("c17b-rows-first", "C17", "silent",
+  (FGSTEPS, "    state._D = connector.assign(\n        state._D, select_columns, state._D[select_columns] @ unitary.T\n    )\n    state._D = connector.assign(\n        state._D, select_rows, unitary.conj() @ state._D[modes, :]\n    )\n",
+   "    state._D = connector.assign(\n        state._D, select_rows, unitary.conj() @ state._D[modes, :]\n    )\n    state._D = connector.assign(\n        state._D, select_columns, state._D[select_columns] @ unitary.T\n    )\n"))
+V("c17c-congruence-no-transpose", "C17", {"rule": "C17c", "contains": "covariance"},
+  (FGSTEPS, "    state.covariance_matrix = SO @ state.covariance_matrix @ SO.T\n", "    state.covariance_matrix = SO @ state.covariance_matrix @ SO\n"))
+V("c17c-right-assoc", "C17", "silent",
+  (FGSTEPS, "    state.covariance_matrix = SO @ state.covariance_matrix @ SO.T\n", "    state.covariance_matrix = SO @ (state.covariance_matrix @ SO.T)\n"))
+V("c17d-amplitude-map-unchecked", "C17", {"rule": "C17d", "contains": "state_vector"},
+  (FFSTEPS, "                if len(occ_numbers) != state._d or not all_zero_or_one(occ_numbers):", "                if len(occ_numbers) != state._d:"))
+V("c17d-gaussian-unchecked", "C17", {"rule": "C17d", "contains": "state_vector"},
+  (FGSTEPS, "    if state._config.validate and not all_zero_or_one(occupation_numbers):\n        raise InvalidParameter(\n            f\"Invalid initial state specified: instruction={instruction}\"\n        )\n\n    state._set_occupation_numbers", "    state._set_occupation_numbers"))
